@@ -149,4 +149,68 @@ func init() {
 	}
 }
 
+// ---- bytes.Buffer / strings.Builder as ghost byte sequences ----
+
+func bufLoc(ref string) (lenL, byteL loc) {
+	return loc{key: "X:buffer#len", idx: []string{ref}}, loc{key: "X:buffer#byte", idx: []string{ref, "0"}}
+}
+
+func (x *X) bufLen(ref string) string {
+	l, _ := bufLoc(ref)
+	n := x.readLeaf(l, "", SInt)
+	x.assume("(>= " + n + " 0)")
+	return n
+}
+
+func (x *X) bufAt(ref, i string) string {
+	_, b := bufLoc(ref)
+	b.idx[1] = i
+	return x.readLeaf(b, "", SInt)
+}
+
+func bufRef(v Val) string {
+	p, ok := v.(Ptr)
+	if !ok || p.Kind != pObj || len(p.Path) != 0 {
+		unsup("buffer receiver is not a plain object pointer")
+	}
+	return p.Obj
+}
+
+func init() {
+	for _, t := range []string{"(*bytes.Buffer)", "(*strings.Builder)"} {
+		externModels[t+".WriteByte"] = func(x *X, f *ssa.Function, args []Val) Val {
+			ref := bufRef(args[0])
+			n := x.bufLen(ref)
+			lenL, byteL := bufLoc(ref)
+			byteL.idx[1] = n
+			x.writeLeaf(byteL, "", SInt, args[1].(S).T)
+			x.writeLeaf(lenL, "", SInt, "(+ "+n+" 1)")
+			return Iface{"0", "0"}
+		}
+		externModels[t+".Len"] = func(x *X, f *ssa.Function, args []Val) Val {
+			return S{x.bufLen(bufRef(args[0])), SInt}
+		}
+		externModels[t+".String"] = func(x *X, f *ssa.Function, args []Val) Val {
+			ref := bufRef(args[0])
+			n := x.bufLen(ref)
+			r := x.fresh("bufstr", SStr)
+			x.assumeStr(r)
+			x.assume(fmt.Sprintf("(= (gs.len %s) %s)", r, n))
+			_, byteL := bufLoc(ref)
+			h := x.heapCur(byteL.key, heapSortFor(byteL, SInt))
+			x.sc.Assert(fmt.Sprintf("(forall ((i Int)) (! (=> (and (<= 0 i) (< i %s)) (= (gs.at %s i) (select (select %s %s) i))) :pattern ((gs.at %s i))))", n, r, h, ref, r))
+			// the same fact, instantiated at the collected points
+			x.sc.n++
+			fn := fmt.Sprintf("bufstr!%d", x.sc.n)
+			x.sc.add(fmt.Sprintf("(define-fun %s ((i Int)) Bool (= (gs.at %s i) (select (select %s %s) i)))", fn, r, h, ref))
+			x.quants = append(x.quants, quant{guard: "true", fn: fn, lo: "0", hi: n, line: len(x.sc.lines)})
+			return S{r, SStr}
+		}
+		externWrites[t+".WriteByte"] = func(x *X, w *writeSet, c *ssa.CallCommon) {
+			w.keys["X:buffer#len"] = arrSort(SInt)
+			w.keys["X:buffer#byte"] = arr2Sort(SInt)
+		}
+	}
+}
+
 var _ = types.Typ
